@@ -29,6 +29,9 @@ def main(argv: list[str]) -> int:
     except Exception:  # noqa: BLE001
         traceback.print_exc()
         return 2
+    if "--replay" in argv:
+        import replay
+        return replay.replay_file(argv[argv.index("--replay") + 1])
     if pid not in registry.REGISTRY:
         print(f"unknown or unclaimed property {pid}")
         return 2
@@ -39,6 +42,7 @@ def main(argv: list[str]) -> int:
         if not b.driver_ok:
             print("tooling failure: the model or its driver does not build\n" + b.log[-3000:])
             return 2
+        framework.run_corpus(ctx)
         getattr(props, f"check_{pid}")(ctx)
         return framework.finish(ctx, b, spec)
     except common.DriverError as e:
